@@ -41,7 +41,8 @@ def read_phase(g, n):
         fe = g.resolve(n.frame, t["args"][0], (n.bb, -1))
         for sub in ir.walk(fe):
             if sub[0] == 'call' and sub[1] == "futures_util::AsyncReadExt::read" and len(sub[2]) > 1:
-                e = sub[2][1]
+                e = sub[2][1]       # pre-order: the outermost read call is the awaited one
+                break
     else:
         if len(t["args"]) > 2:
             e = g.arg(n, 2)
